@@ -1352,26 +1352,33 @@ fn main() {
 }
 
 /// The N3 loader prints one "Unknown prefix" line per unresolved term (known findings F2/F3): hundreds
-/// of megabytes in the thorough tier. Keep the head and the tail of the log, count the rest.
+/// of megabytes in the thorough tier. Those lines are counted and dropped from the log at the end.
 fn compact_log(tier: Tier) {
-    use std::io::{Read, Seek, SeekFrom, Write};
-    const KEEP: u64 = 512 << 10;
+    use std::io::{BufRead, BufReader, BufWriter, Write};
     let root = std::env::var("KVH_ROOT").unwrap_or_else(|_| "/verif".to_string());
     let path = format!("{root}/logs/C13.{}.log", tier.name());
-    let Ok(mut f) = std::fs::File::open(&path) else { return };
-    let len = f.metadata().map(|m| m.len()).unwrap_or(0);
-    if len <= 4 * KEEP {
-        return;
+    let tmp = format!("{path}.tmp");
+    let Ok(f) = std::fs::File::open(&path) else { return };
+    let Ok(w) = std::fs::File::create(&tmp) else { return };
+    let mut w = BufWriter::new(w);
+    let mut dropped = 0u64;
+    let mut r = BufReader::new(f);
+    let mut line = Vec::new();
+    loop {
+        line.clear();
+        match r.read_until(b'\n', &mut line) {
+            Ok(0) | Err(_) => break,
+            Ok(_) => {
+                if line.starts_with(b"Unknown prefix") {
+                    dropped += 1;
+                } else if w.write_all(&line).is_err() {
+                    return;
+                }
+            }
+        }
     }
-    let mut head = vec![0u8; KEEP as usize];
-    let mut tail = vec![0u8; KEEP as usize];
-    if f.read_exact(&mut head).is_err() || f.seek(SeekFrom::Start(len - KEEP)).is_err() || f.read_exact(&mut tail).is_err() {
-        return;
-    }
-    drop(f);
-    if let Ok(mut w) = std::fs::File::create(&path) {
-        let _ = w.write_all(&head);
-        let _ = write!(w, "\n[... {} bytes of loader chatter removed by c13 ...]\n", len - 2 * KEEP);
-        let _ = w.write_all(&tail);
+    let _ = writeln!(w, "[c13: {dropped} `Unknown prefix` lines printed by parse_n3 were dropped from this log]");
+    if w.flush().is_ok() {
+        let _ = std::fs::rename(&tmp, &path);
     }
 }
